@@ -7,13 +7,21 @@
 (* relative (they are intermediate values; only verdicts are demanded exactly), the same verdict,                      *)
 (* sigma_min equal to the variant's parameter, and sigma' in [sigma_min, sigma_max] (the precondition C04 establishes).  *)
 (* Per call {"ev":"callsum","n","call","accepted","iters","returned":bool}: exactly 2n accepted iterations per          *)
-(* ffSampling pass (one per tree-leaf coordinate), i.e. accepted = 2n * (norm attempts).                              *)
+(* ffSampling pass (one per tree-leaf coordinate), i.e. accepted = 2n * (norm attempts); and the traversal order of the   *)
+(* tree: "first_pass_sigmas" (widths of the accepted samples of the first pass, in call order) against "leaves" (the key's *)
+(* leaves in pre-order): right subtree first, two samples per leaf.                                                   *)
 EXTENDS SamplerZ, Params, TraceLib
 VARIABLES l, bad
 vars == <<l, bad>>
 Judge(e) ==
   IF e.ev = "callsum" THEN
-    [ok |-> e.returned /\ e.accepted = 2 * e.n * e.attempts /\ e.iters >= e.accepted, branch |-> "call-n" \o ToString(e.n), detail |-> <<e.accepted, e.iters>>]
+    \* Algorithm 11 (ffSampling) recurses into the RIGHT subtree first; at a leaf it draws two samples with that leaf's width.
+    \* So the widths of the 2n accepted samples of one pass are the leaves in reversed pre-order, each twice.
+    LET nl == Len(e.leaves)
+        order == Len(e.first_pass_sigmas) = 2 * nl /\
+                 \A k \in 1..nl : e.first_pass_sigmas[2 * k - 1] = e.leaves[nl - k + 1] /\ e.first_pass_sigmas[2 * k] = e.leaves[nl - k + 1]
+    IN [ok |-> e.returned /\ e.accepted = 2 * e.n * e.attempts /\ e.iters >= e.accepted /\ nl = e.n /\ order,
+        branch |-> "call-n" \o ToString(e.n), detail |-> <<e.accepted, e.iters, order>>]
   ELSE
     LET glue == SpecIterGlue(FFromWords(e.mu), FFromWords(e.sigma), FFromWords(e.sigmin), e.z0, e.b)
         be == SpecBerExp(FFromWords(e.x), FFromWords(e.ccs), e.bytes)
